@@ -118,10 +118,10 @@ def r121(rep: Report, ctx: Ctx, sql) -> None:
     k_in = _lambda_attr(kw(inner, "key") or (inner.args[1] if len(
         inner.args) > 1 else None))
     want = [f"nodes.{k_out}", f"nodes.{k_in}"]
-    rep.ob("R12.1", "ORDER BY = (outer key, inner key)", order == want,
-           fi=batches, node=mains[0].node,
+    rep.ob("R12.1", "ORDER BY starts with (outer key, inner key)",
+           order[:2] == want, fi=batches, node=mains[0].node,
            detail=f"ORDER BY {order}; groupby keys outer={k_out} "
-                  f"inner={k_in}" + ("" if order == want else
+                  f"inner={k_in}" + ("" if order[:2] == want else
                                     " -- rows of one group are not "
                                     "guaranteed consecutive"))
     rep.ob("R12.1", "outer key is the workflow name, inner key the trace id",
